@@ -19,6 +19,7 @@ DECIDED = [
     "R-C20-PAIR: every exit of Worker.run after health_check_server.start() - normal, exceptional, cancelled - passes stop(); start() (re)opens "
     "the port whenever the server is not serving; the worker hands its server to the runner",
     "R-C20-ISOLATED (closes): every normal exit of data_received - including exits through its own exception handlers - passes transport.close()",
+    "R-C20-PAIR (bounded stop): stop() of the health check server is awaited under a timeout (Server.wait_closed waits for open connections)",
 ]
 NOT_DECIDED = ["the parser on arbitrary bytes as such (exceptions there are contained by the asyncio transport - trusted)", "fragmented valid requests"]
 ASSUMPTIONS = ["asyncio's selector transport catches exceptions raised by Protocol.data_received and closes only that connection"]
